@@ -190,7 +190,7 @@ theorem loopI_topSteps (ops : ValOps V) (r : IRunner V S X) (sched : ISched V S 
       · rw [h0]; intro ts h; simp at h
       · rw [hr]
         intro ts hts
-        simp only [List.singleton_append, List.mem_cons] at hts
+        have hts : ts = stepTasks r ls' ∨ ts ∈ rest := by simpa using hts
         rcases hts with rfl | hts
         · intro p hp
           rw [stepTasks_eq] at hp
@@ -198,5 +198,583 @@ theorem loopI_topSteps (ops : ValOps V) (r : IRunner V S X) (sched : ISched V S 
           obtain ⟨t, ht, rfl⟩ := hp
           exact hnb.1 t ht
         · exact havoid ts hts
+
+/-! ### interrupt-before: what a checkpoint restores is what the interrupt reported -/
+
+/-- `k` is reported by the interrupt: in BeforeNodes, in RerunNodes, or as an interrupted nested graph -/
+def Info.lists (i : Info S X) (k : Key) : Prop :=
+  k ∈ i.before ∨ k ∈ i.rerun ∨ k ∈ i.subs.map (·.1)
+
+/-- every interrupt-before node among the tasks a checkpoint restores was reported with the interrupt -/
+def CPListed (bs : List Key) (cp : Checkpoint V S X) (info : Info S X) : Prop :=
+  ∀ k ∈ cp.inputs.map (·.1), k ∈ bs → info.lists k
+
+theorem sr_listed : ∀ (coll : List (Key × TaskOut V X)) (k : Key),
+    k ∈ (coll.filter (fun o => o.2.isSR)).map (·.1) → k ∈ rerunOf coll ∨ k ∈ (subIntOf coll).map (·.1) := by
+  intro coll
+  induction coll with
+  | nil => intro k h; simp at h
+  | cons o rest ih =>
+    intro k h
+    obtain ⟨k', out⟩ := o
+    cases out with
+    | done v =>
+      have : k ∈ (rest.filter (fun o => o.2.isSR)).map (·.1) := by simpa [TaskOut.isSR] using h
+      simpa [rerunOf, subIntOf] using ih k this
+    | fail e =>
+      have : k ∈ (rest.filter (fun o => o.2.isSR)).map (·.1) := by simpa [TaskOut.isSR] using h
+      simpa [rerunOf, subIntOf] using ih k this
+    | rerun =>
+      have : k = k' ∨ k ∈ (rest.filter (fun o => o.2.isSR)).map (·.1) := by simpa [TaskOut.isSR] using h
+      rcases this with rfl | h'
+      · left; simp [rerunOf]
+      · rcases ih k h' with h1 | h1
+        · left; simp [rerunOf, h1]
+        · right; simp only [subIntOf]; exact h1
+    | subInt x =>
+      have : k = k' ∨ k ∈ (rest.filter (fun o => o.2.isSR)).map (·.1) := by simpa [TaskOut.isSR] using h
+      rcases this with rfl | h'
+      · right; simp [subIntOf]
+      · rcases ih k h' with h1 | h1
+        · left; simp only [rerunOf]; exact h1
+        · right; simp only [subIntOf, List.map_cons, List.mem_cons]; exact Or.inr h1
+
+theorem coreOut_sr_listed (ops : ValOps V) (r : IRunner V S X) (sched : ISched V S X) (cm : Chans V)
+    (bres : List (Key × BodyRes V S X)) (st2 : S) (cm' : Chans V) (restore : List Key) (subs : List (Key × X))
+    (reruns : List Key) (dones : List (Done V)) (st : S)
+    (h : coreOut ops r sched cm bres st2 = .sr cm' restore subs reruns dones st) :
+    ∀ k ∈ restore, k ∈ reruns ∨ k ∈ subs.map (·.1) := by
+  unfold coreOut at h
+  simp only at h
+  split at h
+  · simp at h
+  · split at h
+    · split at h
+      · simp at h
+      · injection h with _ h2 h3 h4 _ _
+        subst h2 h3 h4
+        exact sr_listed _
+    · split at h
+      · simp at h
+      · split at h <;> simp at h
+
+theorem finishStep_intr_listed (ops : ValOps V) (r : IRunner V S X) (stale : List (Key × X))
+    (c : CoreOut V S X) (cp : Checkpoint V S X) (info : Info S X)
+    (hsr : ∀ cm restore subs reruns dones st, c = .sr cm restore subs reruns dones st →
+      ∀ k ∈ restore, k ∈ reruns ∨ k ∈ subs.map (·.1))
+    (h : finishStep ops r stale c = .intr cp info) : CPListed r.intBefore cp info := by
+  cases c with
+  | done v => simp [finishStep] at h
+  | fail e => simp [finishStep] at h
+  | sr cm restore subs reruns dones st =>
+    simp only [finishStep] at h
+    injection h with h1 h2
+    subst h1 h2
+    intro k hk _
+    have hk' : k ∈ restore := by simpa using hk
+    rcases hsr cm restore subs reruns dones st rfl k hk' with h | h
+    · exact Or.inr (Or.inl h)
+    · exact Or.inr (Or.inr h)
+  | next cm ts dones st =>
+    simp only [finishStep] at h
+    split at h
+    · simp at h
+    · split at h
+      · simp at h
+      · simp at h
+      · rename_i cm2 ts2 _
+        injection h with h1 h2
+        subst h1 h2
+        intro k hk hb
+        left
+        simp only [simpleCP, List.map_append, List.mem_append, List.mem_map] at hk
+        simp only [List.mem_append]
+        rcases hk with ⟨p, hp, rfl⟩ | ⟨p, hp, rfl⟩
+        · exact Or.inl ((mem_hitKeys ts r.intBefore p.1).2 ⟨⟨p.2, hp⟩, hb⟩)
+        · exact Or.inr ((mem_hitKeys ts2 r.intBefore p.1).2 ⟨⟨p.2, hp⟩, hb⟩)
+
+theorem stepI_intr_listed (ops : ValOps V) (r : IRunner V S X) (sched : ISched V S X) (ls : LoopSt V S X)
+    (cp : Checkpoint V S X) (info : Info S X) (h : (stepI ops r sched ls).2 = .intr cp info) :
+    CPListed r.intBefore cp info := by
+  apply finishStep_intr_listed ops r ls.stale _ cp info _ h
+  intro cm restore subs reruns dones st hc
+  exact coreOut_sr_listed ops r sched _ _ _ cm restore subs reruns dones st hc
+
+theorem loopI_intr_listed (ops : ValOps V) (r : IRunner V S X) (sched : ISched V S X) (isSub hasID : Bool) :
+    ∀ (fuel : Nat) (ls : LoopSt V S X) (cp : Checkpoint V S X) (info : Info S X),
+      (loopI ops r sched isSub hasID fuel ls).res = .interrupted cp info → CPListed r.intBefore cp info := by
+  intro fuel
+  induction fuel with
+  | zero => intro ls cp info h; simp [loopI] at h
+  | succ n ih =>
+    intro ls cp info h
+    unfold loopI at h
+    split at h
+    · simp at h
+    · simp at h
+    · rename_i cp' info' hst
+      simp only at h
+      injection h with h1 h2
+      subst h1 h2
+      exact stepI_intr_listed ops r sched ls _ _ hst
+    · exact ih _ cp info h
+
+theorem runI_intr_listed (ops : ValOps V) (cfg : Cfg) (r : IRunner V S X) (sched : ISched V S X) (isSub hasID : Bool)
+    (inp : V ⊕ Checkpoint V S X) (cp : Checkpoint V S X) (info : Info S X)
+    (h : (runI ops cfg r sched isSub hasID inp).res = .interrupted cp info) : CPListed r.intBefore cp info := by
+  cases inp with
+  | inr cp0 => exact loopI_intr_listed ops r sched isSub hasID _ _ cp info h
+  | inl x =>
+    simp only [runI] at h
+    split at h
+    · simp at h
+    · simp at h
+    · rename_i cm ts _
+      split at h
+      · injection h with h1 h2
+        subst h1 h2
+        intro k hk hb
+        left
+        simp only [simpleCP, List.mem_map] at hk
+        obtain ⟨p, hp, rfl⟩ := hk
+        exact (mem_hitKeys ts r.intBefore p.1).2 ⟨⟨p.2, hp⟩, hb⟩
+      · exact loopI_intr_listed ops r sched isSub hasID _ _ cp info h
+
+/-! ### interrupt-before over one call and over a history -/
+
+/-- One call honours interrupt-before relative to what the previous call (if any) reported: an
+    interrupt-before node is submitted only in the very first superstep of the call, and only if the
+    previous call's interrupt listed it. -/
+def GoodCall (bs : List Key) (prev : Option (Info S X)) (o : Out V S X) : Prop :=
+  ∀ (j : Nat) (ts : List (Key × Bool)), (topSteps o.evs)[j]? = some ts → ∀ p ∈ ts, p.1 ∈ bs →
+    j = 0 ∧ ∃ info, prev = some info ∧ info.lists p.1
+
+theorem goodCall_of_avoid (bs : List Key) (prev : Option (Info S X)) (o : Out V S X)
+    (h : StepsAvoid bs (topSteps o.evs)) : GoodCall bs prev o := by
+  intro j ts hj p hp hb
+  exact absurd hb (h ts (List.mem_of_getElem? hj) p hp)
+
+theorem runI_fresh_avoid (ops : ValOps V) (cfg : Cfg) (r : IRunner V S X) (sched : ISched V S X) (isSub hasID : Bool)
+    (hcfg : cfg.initialTasksChecked = true) (x : V) :
+    StepsAvoid r.intBefore (topSteps (runI ops cfg r sched isSub hasID (.inl x)).evs) := by
+  simp only [runI]
+  split
+  · intro ts h; simp [topSteps] at h
+  · intro ts h; simp [topSteps] at h
+  · rename_i cm ts _
+    split
+    · intro ts h; simp [topSteps_intrEvs] at h
+    · rename_i hc
+      have hhit : hitKeys ts r.intBefore = [] := by
+        simp only [hcfg, Bool.true_and, Bool.not_eq_true'] at hc
+        simpa [List.isEmpty_iff] using hc
+      rcases loopI_topSteps ops r sched isSub hasID r.base.fuel
+        { cm := cm, tasks := mkTasks [] ts, st := r.initState, stale := [] } with h0 | ⟨rest, hr, havoid⟩
+      · rw [h0]; intro ts h; simp at h
+      · rw [hr]
+        intro ts' hts
+        have hts : ts' = stepTasks r { cm := cm, tasks := mkTasks [] ts, st := r.initState, stale := [] } ∨ ts' ∈ rest := by
+          simpa using hts
+        rcases hts with rfl | hts
+        · intro p hp
+          rw [stepTasks_eq] at hp
+          simp only [mkTasks, List.map_map, List.mem_map] at hp
+          obtain ⟨q, hq, rfl⟩ := hp
+          exact (hitKeys_nil_iff ts r.intBefore).1 hhit q hq
+        · exact havoid ts' hts
+
+theorem runI_resumed_good (ops : ValOps V) (cfg : Cfg) (r : IRunner V S X) (sched : ISched V S X) (isSub hasID : Bool)
+    (cp : Checkpoint V S X) (info : Info S X) (hl : CPListed r.intBefore cp info) :
+    GoodCall r.intBefore (some info) (runI ops cfg r sched isSub hasID (.inr cp)) := by
+  intro j ts hj p hp hb
+  simp only [runI] at hj
+  rcases loopI_topSteps ops r sched isSub hasID r.base.fuel (restore cfg r cp) with h0 | ⟨rest, hr, havoid⟩
+  · rw [h0] at hj; simp at hj
+  · rw [hr] at hj
+    cases j with
+    | succ j' =>
+      simp only [List.getElem?_cons_succ] at hj
+      exact absurd hb (havoid ts (List.mem_of_getElem? hj) p hp)
+    | zero =>
+      simp only [List.getElem?_cons_zero, Option.some.injEq] at hj
+      subst hj
+      refine ⟨rfl, info, rfl, ?_⟩
+      rw [stepTasks_eq] at hp
+      simp only [restore, restoreTasks, List.map_map, List.mem_map] at hp
+      obtain ⟨q, hq, rfl⟩ := hp
+      exact hl q.1 (List.mem_map.2 ⟨q, hq, rfl⟩) hb
+
+def Res.info? : Res V S X → Option (Info S X)
+  | .interrupted _ i => some i
+  | _ => none
+
+/-- every call of a history honours interrupt-before relative to the call before it -/
+def HistOK (bs : List Key) : Option (Info S X) → List (Out V S X) → Prop
+  | _, [] => True
+  | prev, o :: rest => GoodCall bs prev o ∧ HistOK bs o.res.info? rest
+
+theorem resumeLoop_histOK (ops : ValOps V) (cfg : Cfg) (r : IRunner V S X) (sched : ISched V S X)
+    (hcfg : cfg.initialTasksChecked = true) :
+    ∀ (n : Nat) (inp : V ⊕ Checkpoint V S X) (prev : Option (Info S X)),
+      (∀ cp, inp = .inr cp → ∃ info, prev = some info ∧ CPListed r.intBefore cp info) →
+      HistOK r.intBefore prev (resumeLoop ops cfg r sched n inp) := by
+  intro n
+  induction n with
+  | zero => intro inp prev _; simp [resumeLoop, HistOK]
+  | succ m ih =>
+    intro inp prev hin
+    have hgood : GoodCall r.intBefore prev (runI ops cfg r sched false true inp) := by
+      cases inp with
+      | inl x => exact goodCall_of_avoid _ _ _ (runI_fresh_avoid ops cfg r sched false true hcfg x)
+      | inr cp =>
+        obtain ⟨info, rfl, hl⟩ := hin cp rfl
+        exact runI_resumed_good ops cfg r sched false true cp info hl
+    unfold resumeLoop
+    simp only
+    split
+    · rename_i cp info hres
+      refine ⟨hgood, ?_⟩
+      apply ih
+      intro cp' hcp'
+      injection hcp' with hcp'
+      subst hcp'
+      exact ⟨info, by simp [hres, Res.info?], runI_intr_listed ops cfg r sched false true inp cp info hres⟩
+    · exact ⟨hgood, trivial⟩
+
+/-! ### interrupts are reported; the store is written exactly then -/
+
+theorem stepI_evs_obs (ops : ValOps V) (r : IRunner V S X) (sched : ISched V S X) (ls : LoopSt V S X) :
+    ∀ e ∈ (stepI ops r sched ls).1, e.isObs = true := by
+  intro e he
+  rw [stepI_evs] at he
+  simp only [List.mem_cons] at he
+  rcases he with rfl | he
+  · rfl
+  · have := bodyEvs_body r ls e he
+    cases e <;> simp_all [Ev.isBody, Ev.isObs]
+
+theorem mem_intrEvs_interrupt (isSub hasID : Bool) (info info' : Info S X) :
+    Ev.interrupt info' ∈ intrEvs (V := V) isSub hasID info ↔ info' = info := by
+  unfold intrEvs; split <;> simp
+
+theorem mem_intrEvs_store (isSub hasID : Bool) (info : Info S X) :
+    Ev.storeSet ∈ intrEvs (V := V) isSub hasID info ↔ (isSub = false ∧ hasID = true) := by
+  unfold intrEvs; cases isSub <;> cases hasID <;> simp
+
+theorem loopI_interrupt_mem (ops : ValOps V) (r : IRunner V S X) (sched : ISched V S X) (isSub hasID : Bool) :
+    ∀ (fuel : Nat) (ls : LoopSt V S X) (info : Info S X),
+      Ev.interrupt info ∈ (loopI ops r sched isSub hasID fuel ls).evs ↔
+        ∃ cp, (loopI ops r sched isSub hasID fuel ls).res = .interrupted cp info := by
+  intro fuel
+  induction fuel with
+  | zero => intro ls info; simp [loopI]
+  | succ n ih =>
+    intro ls info
+    have hno : Ev.interrupt info ∉ (stepI ops r sched ls).1 := fun h => by
+      have := stepI_evs_obs ops r sched ls _ h; simp [Ev.isObs] at this
+    unfold loopI
+    split
+    · simp [hno]
+    · simp [hno]
+    · rename_i cp' info' _
+      simp only [List.mem_append, hno, false_or, mem_intrEvs_interrupt]
+      constructor
+      · rintro rfl; exact ⟨cp', rfl⟩
+      · rintro ⟨cp, h⟩; injection h with _ h2; exact h2.symm
+    · simp only [List.mem_append, hno, false_or]
+      exact ih _ info
+
+theorem loopI_store_mem (ops : ValOps V) (r : IRunner V S X) (sched : ISched V S X) (isSub hasID : Bool) :
+    ∀ (fuel : Nat) (ls : LoopSt V S X),
+      Ev.storeSet ∈ (loopI ops r sched isSub hasID fuel ls).evs ↔
+        (isSub = false ∧ hasID = true ∧ ∃ cp info, (loopI ops r sched isSub hasID fuel ls).res = .interrupted cp info) := by
+  intro fuel
+  induction fuel with
+  | zero => intro ls; simp [loopI]
+  | succ n ih =>
+    intro ls
+    have hno : Ev.storeSet ∉ (stepI ops r sched ls).1 := fun h => by
+      have := stepI_evs_obs ops r sched ls _ h; simp [Ev.isObs] at this
+    unfold loopI
+    split
+    · simp [hno]
+    · simp [hno]
+    · rename_i cp' info' _
+      simp only [List.mem_append, hno, false_or, mem_intrEvs_store]
+      constructor
+      · rintro ⟨h1, h2⟩; exact ⟨h1, h2, cp', info', rfl⟩
+      · rintro ⟨h1, h2, _⟩; exact ⟨h1, h2⟩
+    · simp only [List.mem_append, hno, false_or]
+      exact ih _
+
+/-! ### interrupt-after -/
+
+/-- the completion order loses no task -/
+def SchedKeeps (sched : ISched V S X) : Prop := ∀ l x, x ∈ l → x ∈ sched l
+
+theorem finish_mem_taskEvs (t : Task V X) (bo : BodyOut V S X) (k : Key) (h : Ev.finish k ∈ taskEvs t bo) :
+    k = t.key ∧ ∃ out s, bo.res = .done out s := by
+  unfold taskEvs at h
+  simp only [List.mem_append, List.mem_cons] at h
+  rcases h with (h | h) | h
+  · cases h
+  · split at h
+    · simp at h
+    · simp at h
+  · split at h
+    · rename_i out s hres
+      simp only [List.mem_cons, Ev.finish.injEq, List.not_mem_nil, or_false] at h
+      exact ⟨h, out, s, hres⟩
+    · simp at h
+
+theorem finish_mem_runBodies (r : IRunner V S X) : ∀ (ts : List (Task V X)) (st : S) (k : Key),
+    Ev.finish k ∈ (runBodies r ts st).2.2 → ∃ out s, (k, BodyRes.done out s) ∈ (runBodies r ts st).1 := by
+  intro ts
+  induction ts with
+  | nil => intro st k h; simp [runBodies] at h
+  | cons t rest ih =>
+    intro st k h
+    simp only [runBodies, List.mem_append] at h
+    rcases h with h | h
+    · obtain ⟨rfl, out, s, hres⟩ := finish_mem_taskEvs _ _ k h
+      exact ⟨out, s, by simp [runBodies, hres]⟩
+    · obtain ⟨out, s, hm⟩ := ih _ k h
+      exact ⟨out, s, by simp only [runBodies, List.mem_cons]; exact Or.inr hm⟩
+
+theorem done_mem_runPosts (r : IRunner V S X) : ∀ (l : List (Key × BodyRes V S X)) (st : S) (k : Key) (out : V) (s : S),
+    (k, BodyRes.done out s) ∈ l → ∃ out', (k, TaskOut.done out') ∈ (runPosts r l st).1 := by
+  intro l
+  induction l with
+  | nil => intro st k out s h; simp at h
+  | cons kr rest ih =>
+    intro st k out s h
+    simp only [List.mem_cons] at h
+    rcases h with h | h
+    · subst h
+      simp only [runPosts, postOne]
+      split
+      · exact ⟨out, by simp⟩
+      · rename_i hh _; exact ⟨(hh out st).1, by simp⟩
+    · obtain ⟨o', hm⟩ := ih (postOne r kr.1 kr.2 st).2 k out s h
+      exact ⟨o', by simp only [runPosts, List.mem_cons]; exact Or.inr hm⟩
+
+theorem done_mem_doneOf : ∀ (coll : List (Key × TaskOut V X)) (k : Key) (out : V),
+    (k, TaskOut.done out) ∈ coll → k ∈ (doneOf coll).map (·.1) := by
+  intro coll
+  induction coll with
+  | nil => intro k out h; simp at h
+  | cons o rest ih =>
+    intro k out h
+    simp only [List.mem_cons] at h
+    rcases h with h | h
+    · subst h; simp [doneOf]
+    · have := ih k out h
+      obtain ⟨k', o'⟩ := o
+      cases o' <;> simp_all [doneOf]
+
+theorem coreOut_next_dones (ops : ValOps V) (r : IRunner V S X) (sched : ISched V S X) (cm : Chans V)
+    (bres : List (Key × BodyRes V S X)) (st2 : S) (cm' : Chans V) (ts : List (Key × V)) (dones : List (Done V)) (st : S)
+    (h : coreOut ops r sched cm bres st2 = .next cm' ts dones st) :
+    dones = doneOf (runPosts r (sched bres) st2).1 := by
+  unfold coreOut at h
+  simp only at h
+  split at h
+  · simp at h
+  · split at h
+    · split at h <;> simp at h
+    · split at h
+      · simp at h
+      · split at h
+        · simp at h
+        · simp at h
+        · injection h with _ _ h3 _
+          exact h3.symm
+
+theorem afterHits_nil_iff (A : List Key) (dones : List (Done V)) :
+    afterHits A dones = [] ↔ ∀ k ∈ dones.map (·.1), k ∉ A := by
+  unfold afterHits
+  rw [List.filter_eq_nil_iff]
+  simp
+
+/-- when the loop goes on, no node that completed in this superstep is an interrupt-after node -/
+theorem stepI_next_no_after (ops : ValOps V) (r : IRunner V S X) (sched : ISched V S X) (hs : SchedKeeps sched)
+    (ls ls' : LoopSt V S X) (h : (stepI ops r sched ls).2 = .next ls') :
+    ∀ k, Ev.finish k ∈ (stepI ops r sched ls).1 → k ∉ r.intAfter := by
+  intro k hk
+  obtain ⟨cm, ts, dones, st, hc, _, _, hafter⟩ := finishStep_next ops r ls.stale _ ls' h
+  rw [stepI_evs] at hk
+  simp only [List.mem_cons] at hk
+  rcases hk with hk | hk
+  · cases hk
+  · obtain ⟨out, s, hm⟩ := finish_mem_runBodies r _ _ k hk
+    have hm' := hs _ _ hm
+    obtain ⟨out', hp⟩ := done_mem_runPosts r _ (runBodies r (runPres r ls.tasks ls.st).1 (runPres r ls.tasks ls.st).2).2.1 k out s hm'
+    have hd := done_mem_doneOf _ k out' hp
+    have hdones := coreOut_next_dones ops r sched _ _ _ cm ts dones st hc
+    rw [← hdones] at hd
+    exact (afterHits_nil_iff r.intAfter dones).1 hafter k hd
+
+/-- after a `finish k` with `k` an interrupt-after node, the call submits no further superstep -/
+def NoStepAfter (A : List Key) : List (Ev V S X) → Prop
+  | [] => True
+  | .finish k :: rest => (k ∈ A → topSteps rest = []) ∧ NoStepAfter A rest
+  | _ :: rest => NoStepAfter A rest
+
+theorem noStepAfter_of_noSteps (A : List Key) : ∀ (l : List (Ev V S X)), (∀ e ∈ l, ∀ ts, e ≠ Ev.step ts) → NoStepAfter A l := by
+  intro l
+  induction l with
+  | nil => intro _; trivial
+  | cons e rest ih =>
+    intro h
+    have hr : ∀ e ∈ rest, ∀ ts, e ≠ Ev.step ts := fun e' h' => h e' (by simp [h'])
+    have hts : topSteps rest = [] := by
+      clear ih h
+      induction rest with
+      | nil => rfl
+      | cons e' rest' ih' =>
+        have := hr e' (by simp)
+        have hr' := ih' (fun e'' h'' => hr e'' (by simp [h'']))
+        cases e' <;> simp_all [topSteps]
+    cases e <;> simp [NoStepAfter, ih hr, hts]
+
+theorem noStepAfter_append (A : List Key) : ∀ (l1 l2 : List (Ev V S X)),
+    NoStepAfter A l1 → NoStepAfter A l2 → ((∃ k, k ∈ A ∧ Ev.finish k ∈ l1) → topSteps l2 = []) →
+    NoStepAfter A (l1 ++ l2) := by
+  intro l1
+  induction l1 with
+  | nil => intro l2 _ h2 _; simpa using h2
+  | cons e rest ih =>
+    intro l2 h1 h2 h3
+    have h3' : (∃ k, k ∈ A ∧ Ev.finish k ∈ rest) → topSteps l2 = [] := by
+      rintro ⟨k, hk, hm⟩; exact h3 ⟨k, hk, by simp [hm]⟩
+    cases e with
+    | finish k =>
+      simp only [NoStepAfter] at h1
+      simp only [List.cons_append, NoStepAfter]
+      refine ⟨?_, ih l2 h1.2 h2 h3'⟩
+      intro hk
+      rw [topSteps_append, h1.1 hk, h3 ⟨k, hk, by simp⟩]; rfl
+    | step ts => simp only [NoStepAfter] at h1; simpa [NoStepAfter] using ih l2 h1 h2 h3'
+    | start k v => simp only [NoStepAfter] at h1; simpa [NoStepAfter] using ih l2 h1 h2 h3'
+    | nested k evs => simp only [NoStepAfter] at h1; simpa [NoStepAfter] using ih l2 h1 h2 h3'
+    | interrupt i => simp only [NoStepAfter] at h1; simpa [NoStepAfter] using ih l2 h1 h2 h3'
+    | storeSet => simp only [NoStepAfter] at h1; simpa [NoStepAfter] using ih l2 h1 h2 h3'
+
+theorem noStepAfter_split (A : List Key) : ∀ (l1 l2 : List (Ev V S X)) (k : Key),
+    NoStepAfter A (l1 ++ Ev.finish k :: l2) → k ∈ A → topSteps l2 = [] := by
+  intro l1
+  induction l1 with
+  | nil => intro l2 k h hk; simp only [List.nil_append, NoStepAfter] at h; exact h.1 hk
+  | cons e rest ih =>
+    intro l2 k h hk
+    cases e <;> simp only [List.cons_append, NoStepAfter] at h
+    case finish k' => exact ih l2 k h.2 hk
+    all_goals exact ih l2 k h hk
+
+theorem stepI_noStepAfter (ops : ValOps V) (r : IRunner V S X) (sched : ISched V S X) (ls : LoopSt V S X) (A : List Key) :
+    NoStepAfter A (stepI ops r sched ls).1 := by
+  rw [stepI_evs]
+  simp only [NoStepAfter]
+  apply noStepAfter_of_noSteps
+  intro e he ts heq
+  have := bodyEvs_body r ls e he
+  subst heq
+  simp [Ev.isBody] at this
+
+theorem intrEvs_noStepAfter (isSub hasID : Bool) (info : Info S X) (A : List Key) :
+    NoStepAfter A (intrEvs (V := V) isSub hasID info) := by
+  unfold intrEvs; split <;> simp [NoStepAfter]
+
+theorem loopI_noStepAfter (ops : ValOps V) (r : IRunner V S X) (sched : ISched V S X) (isSub hasID : Bool)
+    (hs : SchedKeeps sched) :
+    ∀ (fuel : Nat) (ls : LoopSt V S X), NoStepAfter r.intAfter (loopI ops r sched isSub hasID fuel ls).evs := by
+  intro fuel
+  induction fuel with
+  | zero => intro ls; simp [loopI, NoStepAfter]
+  | succ n ih =>
+    intro ls
+    unfold loopI
+    split
+    · exact stepI_noStepAfter ops r sched ls _
+    · exact stepI_noStepAfter ops r sched ls _
+    · exact noStepAfter_append _ _ _ (stepI_noStepAfter ops r sched ls _) (intrEvs_noStepAfter _ _ _ _)
+        (fun _ => topSteps_intrEvs _ _ _)
+    · rename_i ls' hnext
+      apply noStepAfter_append _ _ _ (stepI_noStepAfter ops r sched ls _) (ih ls')
+      rintro ⟨k, hk, hm⟩
+      exact absurd hk (stepI_next_no_after ops r sched hs ls ls' hnext k hm)
+
+/-! ### the same facts for a whole call (`runI`) -/
+
+theorem runI_noStepAfter (ops : ValOps V) (cfg : Cfg) (r : IRunner V S X) (sched : ISched V S X) (isSub hasID : Bool)
+    (hs : SchedKeeps sched) (inp : V ⊕ Checkpoint V S X) :
+    NoStepAfter r.intAfter (runI ops cfg r sched isSub hasID inp).evs := by
+  cases inp with
+  | inr cp => exact loopI_noStepAfter ops r sched isSub hasID hs _ _
+  | inl x =>
+    simp only [runI]
+    split
+    · simp [NoStepAfter]
+    · simp [NoStepAfter]
+    · split
+      · exact intrEvs_noStepAfter _ _ _ _
+      · exact loopI_noStepAfter ops r sched isSub hasID hs _ _
+
+theorem runI_interrupt_mem (ops : ValOps V) (cfg : Cfg) (r : IRunner V S X) (sched : ISched V S X) (isSub hasID : Bool)
+    (inp : V ⊕ Checkpoint V S X) (info : Info S X) :
+    Ev.interrupt info ∈ (runI ops cfg r sched isSub hasID inp).evs ↔
+      ∃ cp, (runI ops cfg r sched isSub hasID inp).res = .interrupted cp info := by
+  cases inp with
+  | inr cp => exact loopI_interrupt_mem ops r sched isSub hasID _ _ info
+  | inl x =>
+    simp only [runI]
+    split
+    · simp
+    · simp
+    · split
+      · simp only [mem_intrEvs_interrupt]
+        constructor
+        · rintro rfl; exact ⟨_, rfl⟩
+        · rintro ⟨cp, h⟩; injection h with _ h2; exact h2.symm
+      · exact loopI_interrupt_mem ops r sched isSub hasID _ _ info
+
+theorem runI_store_mem (ops : ValOps V) (cfg : Cfg) (r : IRunner V S X) (sched : ISched V S X) (isSub hasID : Bool)
+    (inp : V ⊕ Checkpoint V S X) :
+    Ev.storeSet ∈ (runI ops cfg r sched isSub hasID inp).evs ↔
+      (isSub = false ∧ hasID = true ∧ ∃ cp info, (runI ops cfg r sched isSub hasID inp).res = .interrupted cp info) := by
+  cases inp with
+  | inr cp => exact loopI_store_mem ops r sched isSub hasID _ _
+  | inl x =>
+    simp only [runI]
+    split
+    · simp
+    · simp
+    · split
+      · simp only [mem_intrEvs_store]
+        constructor
+        · rintro ⟨h1, h2⟩; exact ⟨h1, h2, _, _, rfl⟩
+        · rintro ⟨h1, h2, _⟩; exact ⟨h1, h2⟩
+      · exact loopI_store_mem ops r sched isSub hasID _ _
+
+/-- in every call, only the first superstep can contain an interrupt-before node (whatever the
+    source does with the tasks computed from START) -/
+theorem runI_later_steps_avoid (ops : ValOps V) (cfg : Cfg) (r : IRunner V S X) (sched : ISched V S X) (isSub hasID : Bool)
+    (inp : V ⊕ Checkpoint V S X) :
+    StepsAvoid r.intBefore (topSteps (runI ops cfg r sched isSub hasID inp).evs).tail := by
+  have hl : ∀ ls, StepsAvoid r.intBefore (topSteps (loopI ops r sched isSub hasID r.base.fuel ls).evs).tail := by
+    intro ls
+    rcases loopI_topSteps ops r sched isSub hasID r.base.fuel ls with h0 | ⟨rest, hr, havoid⟩
+    · rw [h0]; intro ts h; simp at h
+    · rw [hr]; exact havoid
+  cases inp with
+  | inr cp => exact hl _
+  | inl x =>
+    simp only [runI]
+    split
+    · intro ts h; simp [topSteps] at h
+    · intro ts h; simp [topSteps] at h
+    · split
+      · intro ts h; simp [topSteps_intrEvs] at h
+      · exact hl _
 
 end EinoV.Interrupt
